@@ -422,6 +422,8 @@ class SData:
 class SArray:
     """an array with dimensions d0 … d(n-1), each an increasing axis with range (lo_k, hi_k)"""
     def __init__(self, n, sy, attrs=None):
+        self._made = (n, sy, attrs)
+        self.copy_of = None
         self.ndim = n
         self.dims = tuple(f"d{k}" for k in range(n))
         idx = {f"d{k}": SIndex(k, sy[f"lo{k}"], sy[f"hi{k}"], attrs) for k in range(n)}
@@ -450,6 +452,15 @@ class SArray:
 
     def get_index(self, key):
         return self.indexes[key]
+
+    def copy(self, deep=True, data=None):
+        """`array.copy()`: the same array as a new object holding what was written so far"""
+        if data is not None:
+            raise Untraceable("copy(data=...) of the array")
+        new = SArray(*self._made)
+        new.copy_of = self.copy_of or self
+        new.data.writes = list(self.data.writes)
+        return new
 
     def __len__(self):
         return _len_of(0)
@@ -521,9 +532,13 @@ def set_ties(ctx, max_ndim=3):
             def run():
                 arr = SArray(n, sy)
                 out = ops.set_value_at_pos(array=arr, value=VALUE, **query) if kw else ops.set_value_at_pos(arr, VALUE, **query)
-                if out is not arr:
-                    raise Untraceable("set_value_at_pos does not return the array it was given")
-                return arr.data.writes
+                # the array returned carries the write: the array given (written in place, as the docstring says)
+                # or a copy of it; the array given holds the same write or none at all
+                if not isinstance(out, SArray) or (out is not arr and out.copy_of is not arr):
+                    raise Untraceable("set_value_at_pos returns neither the array it was given nor a copy of it")
+                if out is not arr and arr.data.writes and arr.data.writes != out.data.writes:
+                    raise Untraceable("the array given and the copy returned were written differently")
+                return out.data.writes
             return run
 
         def leaf(writes):
